@@ -328,6 +328,11 @@ def _hyp_worker(args):
                         pass
             if last is not None and again == 3:
                 st.failure = last
+            elif last is not None and getattr(mod, "DETERMINISTIC", False):
+                # the oracle of this check is a pure function of the case (no clock, no files, no processes): a failure it has seen
+                # is a failure of the code under test even if the same call succeeds when repeated - the code's behaviour then
+                # depends on state left behind by earlier calls in the same process (a cache, a shared object)
+                st.failure = dict(last, message=last["message"] + f" [seen on the first execution of this case; repeating the same case in the same process reproduced it {again} times out of 3: the outcome depends on state left by earlier calls]")
             else:
                 st.error = f"flaky under Hypothesis and not reproducible by plain replay ({again}/3): {e}"
                 st.notes["flaky_case"] = _sample(last["case"]) if last else None
